@@ -142,4 +142,5 @@ Proof.
   - destruct (idict_get c (s_chans s)); exact K.
   - destruct (match idict_get nick0 (s_users s) with Some _ => feq nick0 (s_me s) | None => true end); [|exact K].
     cbn [fst]. apply skeys_vmap; [exact K|]. intros ch0. apply ok_del.
+  - exact K.
 Qed.
